@@ -1507,21 +1507,24 @@ def _is_not_hermitian(expr: sympy.Expr | sympy.MatrixBase) -> bool:
         return expr.is_hermitian is False
     # Sympy cannot decide hermiticity of matrices with operators (sympy issue
     # #27898), compare the number ordered forms of the entries instead.
-    entries = (
+    pairs = (
         [
-            expr[i, j] - Dagger(expr[j, i])
+            (expr[i, j], expr[j, i])
             for i in range(expr.rows)
             for j in range(i, expr.cols)
         ]
         if isinstance(expr, sympy.MatrixBase)
-        else [expr - Dagger(expr)]
+        else [(expr, expr)]
     )
-    return any(
-        coeff.is_zero is False
-        for entry in entries
-        if entry != 0
-        for coeff in NumberOrderedForm.from_expr(entry).terms.values()
-    )
+    for entry, transposed in pairs:
+        # Take the adjoint of the number ordered form: sympy's Dagger does not
+        # handle functions of number operators such as (-1)**N.
+        difference = NumberOrderedForm.from_expr(
+            entry
+        ) - NumberOrderedForm.from_expr(transposed).adjoint()
+        if any(coeff.is_zero is False for coeff in difference.terms.values()):
+            return True
+    return False
 
 
 def _to_scalar_BlockSeries(
